@@ -504,8 +504,10 @@ def opt(x, f):
     return "None" if x is None else "(Some %s)" % f(x)
 
 
-def case_exprs(c, out, sim):
-    """-> list of (component name, Coq boolean expression); evaluated together as one list."""
+def case_exprs(c, out, sim, tag="k"):
+    """-> (component names, top-level definitions, Coq expression evaluating to the list of booleans).
+    The large literals are top-level Definitions (elaborating them under a `let` is far slower)."""
+    defs = []
     boot = tuple(c["boot"])
     machine = sim.SimMachine(c)
     comps = []
@@ -518,11 +520,14 @@ def case_exprs(c, out, sim):
             infos.append("((%s, %s), mkReply %s %s %s %s)" % (zlit(x), zlit(y), zlit(a1), zlit(a2), zlit(a3),
                                                              zl(list(bytearray(data)))))
     b1, b2, b3, bdata = machine.sver_reply(boot, 0)
-    head = ("let M := %s in let I := %s in let R := controller_system_info (mkReply %s %s %s %s) (mem_reader M) (info_of I) in "
-            % (mem, vlist(infos), zlit(b1), zlit(b2), zlit(b3), zl(list(bytearray(bdata)))))
+    defs.append("Definition M_%s : list (Z * list Z) := %s." % (tag, mem))
+    defs.append("Definition I_%s : list (chip * reply) := %s." % (tag, vlist(infos)))
+    defs.append("Definition R_%s := controller_system_info (mkReply %s %s %s %s) (mem_reader M_%s) (info_of I_%s)."
+                % (tag, zlit(b1), zlit(b2), zlit(b3), zl(list(bytearray(bdata))), tag, tag))
+    head = ""
     si = out["sysinfo"]
     if si[0] != "ok":
-        body = "[match R with Ok _ => false | OutOfFuel => false | _ => true end]"
+        body = "[match R_%s with Ok _ => false | OutOfFuel => false | _ => true end]" % tag
         names = ["sysinfo:error"]
     else:
         parts, names = [], []
@@ -559,7 +564,7 @@ def case_exprs(c, out, sim):
         tl = out["target_lengths"]
         add("target_lengths", "false" if (tl and tl[0] == "err") else
             "hash_ll (map (fun t => [fst (fst t); snd (fst t); snd t]) (target_lengths si)) =? %s" % zlit(hll(tl)))
-        body = "match R with Ok si => %s | _ => [false] end" % vlist(parts)
+        body = "match R_%s with Ok si => %s | _ => [false] end" % (tag, vlist(parts))
     exprs = ["(" + head + body + ")"]
     all_names = list(names)
     # software version
@@ -575,8 +580,9 @@ def case_exprs(c, out, sim):
         exprs.append("[%s]" % e)
         all_names.append("sver(%d,%d,%d)" % (x, y, p))
     # probes
-    for pr, o in zip(c["probes"], out.get("probes", [])):
+    for j, (pr, o) in enumerate(zip(c["probes"], out.get("probes", []))):
         memc = regions_lit(machine.regions(tuple(pr["chip"])))
+        mcname = "MC_%s_%d" % (tag, j)
         p = pr["p"]
         parts = []
 
@@ -596,8 +602,27 @@ def case_exprs(c, out, sim):
         cmp("router", "router_diagnostics (mem_reader MC)", o["router"], "lz_eqb", zl)
         if o.get("num_cores", ["err"])[0] == "ok":
             cmp("num_cores", "read_sv_int (mem_reader MC) sv_num_cpus", o["num_cores"], "Z.eqb", zlit)
-        exprs.append("(let MC := %s in %s)" % (memc, vlist(parts)))
-    return all_names, " ++ ".join(exprs)
+        defs.append("Definition %s : list (Z * list Z) := %s." % (mcname, memc))
+        exprs.append(vlist(parts).replace("(mem_reader MC)", "(mem_reader %s)" % mcname))
+    return all_names, "\n".join(defs), " ++ ".join(exprs)
+
+
+def coq_eval_cases(chk, triples, shard, timeout=2400):
+    """triples: [(names, defs, expr)] -> list of parsed values (one list of booleans per case)."""
+    import concurrent.futures
+    shards = [triples[i:i + shard] for i in range(0, len(triples), shard)]
+    texts = [HEADER + "\n".join("%s\nEval vm_compute in (%s)." % (d, e) for _, d, e in sh) + "\n" for sh in shards]
+    with concurrent.futures.ThreadPoolExecutor(max_workers=min(12, os.cpu_count() or 4)) as ex:
+        results = list(ex.map(lambda kt: chk.coqc_text("cases_%d" % kt[0], kt[1], timeout), enumerate(texts)))
+    vals = []
+    for k, (out, sh) in enumerate(zip(results, shards)):
+        if "@@COQC-FAILED" in out:
+            raise RuntimeError("model evaluation failed in shard %d: %s" % (k, out[-1500:]))
+        vs = lib.split_evals(out)
+        if len(vs) != len(sh):
+            raise RuntimeError("model evaluation shard %d printed %d values for %d cases: %s" % (k, len(vs), len(sh), out[-800:]))
+        vals.extend(lib.parse_term(v) for v in vs)
+    return vals
 
 
 def nontrivial(c, out):
@@ -672,10 +697,22 @@ def run(chk, args):
     if chk.model_ok and built:
         try:
             idx = [i for i, o in enumerate(outs) if isinstance(o, dict)]
-            named = [case_exprs(cases[i], outs[i], sim) for i in idx]
-            vals = chk.coq_eval(HEADER, [e for _, e in named], shard=(12 if chk.tier == "quick" else 40), timeout=2400)
+            named = [case_exprs(cases[i], outs[i], sim, "c%d" % i) for i in idx]
+            order = sorted(range(len(named)), key=lambda k: -len(named[k][1]))       # big cases first, spread over shards
+            nshard = max(1, min(24, len(named) // 4)) if chk.tier == "quick" else max(1, len(named) // 40)
+            buckets = [[] for _ in range(nshard)]
+            for r, k in enumerate(order):
+                buckets[r % nshard].append(k)
+            flat_order = [k for b in buckets for k in b]
+            got = []
+            for b in [buckets[i:i + 24] for i in range(0, nshard, 24)]:
+                ks = [k for bb in b for k in bb]
+                got += coq_eval_cases(chk, [named[k] for k in ks], shard=max(len(bb) for bb in b))
+            vals = [None] * len(named)
+            for k, v in zip(flat_order, got):
+                vals[k] = v
             nbad = 0
-            for i, (names, _), v in zip(idx, named, vals):
+            for i, (names, _, _), v in zip(idx, named, vals):
                 chk.traces_validated += 1
                 wrong = [n for n, b in zip(names, v) if b is not True] if len(v) == len(names) else ["shape:%d/%d" % (len(v), len(names))]
                 if wrong:
